@@ -10,6 +10,7 @@ from props import c01
 
 FILES = ["Model_core.v", "Model_minerals.v", "Proofs_core.v", "Proofs_minerals.v", "Proofs_flow.v", "Proofs_path.v", "Proofs_rhs.v",
          "Entry_core.v", "Extract_core.v"]
+FILES += [f for f in MT.GLUE_TIE_FILES if f not in FILES]   # tie T of the glue model
 PROP = "Properties/C05.v"
 KS = [1e-16, 1e-15, 1e-12, 1e-8, 1e-4, 1.0, 10.0, 1e3]
 TOL = 1e-3      # alarm threshold = solver tolerance: LSODA runs with rtol 1e-6 and atol 1e-4 per component, and two
@@ -33,8 +34,8 @@ def compare(h1, hk):
 
 
 def run(chk):
-    ok, br = proofs.prove(chk, FILES, PROP, groups=("core",), gen_modules=())
-    chk.cov["trusted_base"] = common.TRUSTED_COMMON + [
+    ok, br = proofs.prove(chk, FILES, PROP, groups=("core",), gen_modules=MT.GLUE_TIE_GEN)
+    chk.cov["trusted_base"] = common.TRUSTED_COMMON + [MT.GLUE_TIE_TRUSTED,
         "hand-written Model_minerals.rhs (the integrand), tied by trace validation at every tested rate",
         "oracle: the strain-rate scale is the is_eigmax of D (unique, positively homogeneous -- proved); residual-checked against a closed form",
         "NOT proved: that LSODA, given a k-scaled vector field and 1/k-scaled interval and first step, takes the same step sequence (a property of the Fortran code); measured here by paired runs",
